@@ -16,3 +16,408 @@ Proof.
     destruct (Z.testbit mask i) eqn:Hm; [|now rewrite !andb_false_r].
     now rewrite (H i Hi Hm).
 Qed.
+
+(* ---- W2: str2bin ----------------------------------------------------------------------------- *)
+Lemma shift_in_snoc b ds d acc : shift_in b (ds ++ [d]) acc = shift_step b (shift_in b ds acc) d.
+Proof. unfold shift_in. rewrite fold_left_app. reflexivity. Qed.
+
+Lemma small_bits_high x b i : 0 <= x < 2 ^ b -> 0 <= b <= i -> Z.testbit x i = false.
+Proof.
+  intros Hx Hb. rewrite <- (Z.mod_small x (2 ^ b)) by lia. apply Z.mod_pow2_bits_high. lia.
+Qed.
+
+Lemma pow2m1_bits b i : 0 <= b -> 0 <= i -> Z.testbit (2 ^ b - 1) i = (i <? b).
+Proof.
+  intros Hb Hi. replace (2 ^ b - 1) with (Z.ones b) by (rewrite Z.ones_equiv; lia).
+  apply Z.testbit_ones_nonneg; assumption.
+Qed.
+
+(* W2: str2bin computes the pattern the digits write down.  ds is most significant digit first,
+   as in Wildcard.shift_in. *)
+Lemma shift_in_bits b ds :
+  0 < b -> forallb (wf_digit b) ds = true ->
+  forall i, 0 <= i ->
+    Z.testbit (snd (shift_in b ds (0, 0))) i = (match pat_bit b (rev ds) i with Some _ => true | None => false end) /\
+    Z.testbit (fst (shift_in b ds (0, 0))) i = (match pat_bit b (rev ds) i with Some x => x | None => false end).
+Proof.
+  intros Hb. induction ds as [|d ds IH] using rev_ind; intros Hwf i Hi.
+  - cbn. rewrite Z.testbit_0_l. split; reflexivity.
+  - rewrite forallb_app in Hwf. apply andb_true_iff in Hwf as [Hwf Hd].
+    cbn [forallb] in Hd. rewrite andb_true_r in Hd. specialize (IH Hwf).
+    rewrite shift_in_snoc, rev_app_distr. cbn [rev app pat_bit].
+    destruct (shift_in b ds (0, 0)) as [val msk] eqn:Eacc. cbn [fst snd] in IH.
+    destruct (i <? b) eqn:Eib.
+    + assert (Hneg : i - b < 0) by lia.
+      destruct d as [|x]; cbn [shift_step fst snd].
+      * rewrite !Z.shiftl_spec by assumption.
+        rewrite (Z.testbit_neg_r val (i - b)), (Z.testbit_neg_r msk (i - b)) by assumption.
+        split; reflexivity.
+      * rewrite !Z.lor_spec, !Z.shiftl_spec by assumption.
+        rewrite (Z.testbit_neg_r val (i - b)), (Z.testbit_neg_r msk (i - b)) by assumption.
+        rewrite pow2m1_bits by lia. rewrite Eib. split; reflexivity.
+    + assert (Hge : 0 <= i - b) by lia. destruct (IH (i - b) Hge) as [IH1 IH2].
+      destruct d as [|x]; cbn [shift_step fst snd].
+      * rewrite !Z.shiftl_spec by assumption. split; assumption.
+      * cbn [wf_digit] in Hd.
+        rewrite !Z.lor_spec, !Z.shiftl_spec by assumption.
+        rewrite pow2m1_bits by lia. rewrite Eib, orb_false_r.
+        rewrite (small_bits_high x b i) by lia. rewrite orb_false_r. split; assumption.
+Qed.
+
+Lemma digit_val_nonneg c d : digit_val c = Some d -> 0 <= d.
+Proof.
+  unfold digit_val. cbv zeta. intros H.
+  destruct ((48 <=? zofa c) && (zofa c <=? 57)) eqn:E1; [inversion H; lia|].
+  destruct ((97 <=? zofa c) && (zofa c <=? 102)) eqn:E2; [inversion H; lia|].
+  destruct ((65 <=? zofa c) && (zofa c <=? 70)) eqn:E3; [inversion H; lia|discriminate].
+Qed.
+
+Lemma digits_of_wf b cs ds : 0 <= b -> digits_of b cs = Some ds -> forallb (wf_digit b) ds = true.
+Proof.
+  intros Hb. revert ds. induction cs as [|c t IH]; intros ds H; cbn [digits_of] in H.
+  - inversion H. reflexivity.
+  - destruct (is_skip c); [apply IH; exact H|].
+    destruct (is_wild c).
+    + destruct (digits_of b t) as [ds'|]; [|discriminate]. cbn [option_map] in H.
+      inversion H; subst. cbn [forallb wf_digit]. apply IH. reflexivity.
+    + destruct (digit_val c) as [d|] eqn:Ed; [|discriminate].
+      destruct (d <? 2 ^ b) eqn:Elt; [|discriminate].
+      destruct (digits_of b t) as [ds'|]; [|discriminate]. cbn [option_map] in H.
+      inversion H; subst. cbn [forallb wf_digit]. rewrite (IH ds' eq_refl), Elt.
+      apply digit_val_nonneg in Ed. lia.
+Qed.
+
+Lemma base_bits_pos s b t : base_bits s = Some (b, t) -> b = 1 \/ b = 3 \/ b = 4.
+Proof.
+  unfold base_bits. intros H. destruct s as [|z [|k r]]; try discriminate.
+  destruct (zofa z =? 48); [|discriminate]. cbv zeta in H.
+  destruct ((zofa k =? 111) || (zofa k =? 79)); [inversion H; auto|].
+  destruct ((zofa k =? 120) || (zofa k =? 88)); [inversion H; auto|].
+  destruct ((zofa k =? 98) || (zofa k =? 66)); [inversion H; auto|discriminate].
+Qed.
+
+(* the property's statement for string patterns: a sample v hits the bin built from string s iff
+   v agrees with every non-wildcard bit of the written pattern *)
+Lemma str2bin_hit s b ds v :
+  str2digits s = Some (b, ds) ->
+  exists value mask, str2bin s = Some (value, mask) /\
+    (spec_hit (value, mask) v = true <->
+     forall i x, 0 <= i -> pat_bit b (rev ds) i = Some x -> Z.testbit v i = x).
+Proof.
+  intros H. unfold str2bin. rewrite H.
+  unfold str2digits in H.
+  destruct (base_bits (String.list_ascii_of_string s)) as [[b' t]|] eqn:Eb; [|discriminate].
+  destruct (digits_of b' t) as [ds'|] eqn:Ed; [|discriminate].
+  cbn [option_map] in H. inversion H; subst b' ds'. clear H.
+  assert (Hb : 0 < b) by (apply base_bits_pos in Eb; lia).
+  assert (Hwf : forallb (wf_digit b) ds = true) by (eapply digits_of_wf; [lia|exact Ed]).
+  pose proof (shift_in_bits b ds Hb Hwf) as Hbits.
+  destruct (shift_in b ds (0, 0)) as [value mask] eqn:Eacc. cbn [fst snd] in Hbits.
+  exists value, mask. split; [reflexivity|].
+  rewrite spec_hit_agrees. unfold agrees. split.
+  - intros Hag i x Hi Hp. destruct (Hbits i Hi) as [Hm Hv]. rewrite Hp in Hm, Hv.
+    rewrite (Hag i Hi Hm). exact Hv.
+  - intros Hp i Hi Hm. destruct (Hbits i Hi) as [Hm' Hv]. rewrite Hm in Hm'.
+    destruct (pat_bit b (rev ds) i) as [x|] eqn:Ep; [|discriminate].
+    rewrite Hv. apply (Hp i x Hi Ep).
+Qed.
+
+(* ---- W3: matchvals --------------------------------------------------------------------------- *)
+Lemma psize_pos m : 0 < psize m.
+Proof. induction m; cbn [psize]; lia. Qed.
+
+Lemma pow2_succ p : 0 <= p -> 2 ^ (1 + p) = 2 * 2 ^ p.
+Proof. intros Hp. replace (1 + p) with (Z.succ p) by lia. apply Z.pow_succ_r. exact Hp. Qed.
+
+Lemma testbit_succ_div2 a i : 0 <= i -> Z.testbit a (Z.succ i) = Z.testbit (Z.div2 a) i.
+Proof. intros Hi. rewrite Z.div2_div. symmetry. apply Z.div2_bits. exact Hi. Qed.
+
+(* agreement on a mask, peeled one bit at a time *)
+Lemma agrees_step v m x :
+  agrees v m x <->
+  ((Z.odd m = true -> Z.odd x = Z.odd v) /\ agrees (Z.div2 v) (Z.div2 m) (Z.div2 x)).
+Proof.
+  unfold agrees. split.
+  - intros H. split.
+    + intros Hm. rewrite <- !Z.bit0_odd. apply H; [lia|]. rewrite Z.bit0_odd. exact Hm.
+    + intros i Hi Hm. rewrite <- !testbit_succ_div2 by assumption.
+      apply H; [lia|]. rewrite testbit_succ_div2 by assumption. exact Hm.
+  - intros [H0 HS] i Hi Hm.
+    assert (Hc : i = 0 \/ exists j, i = Z.succ j /\ 0 <= j) by (destruct (Z.eq_dec i 0); [left; assumption|right; exists (i - 1); lia]).
+    destruct Hc as [->|(j & -> & Hj)].
+    + rewrite Z.bit0_odd in Hm. rewrite !Z.bit0_odd. apply H0. exact Hm.
+    + rewrite testbit_succ_div2 in Hm by assumption.
+      rewrite !testbit_succ_div2 by assumption. apply HS; assumption.
+Qed.
+
+Lemma agrees_zero_mask v x : agrees v 0 x.
+Proof. intros i Hi Hm. rewrite Z.testbit_0_l in Hm. discriminate. Qed.
+
+Lemma div2_odd_unique x y (c : bool) : x = 2 * y + Z.b2z c -> Z.div2 x = y /\ Z.odd x = c.
+Proof.
+  intros ->. split.
+  - rewrite Z.div2_div. destruct c; cbn [Z.b2z]; Z.div_mod_to_equations; lia.
+  - rewrite Z.add_comm, Z.odd_add_mul_2. destruct c; reflexivity.
+Qed.
+
+(* W3: matchvals enumerates, in strictly ascending order, exactly the x below 2^(bit length of the
+   mask) that agree with v on the mask bits *)
+Lemma matchvals_spec m : forall v x,
+  In x (matchvals m v) <-> (0 <= x < 2 ^ psize m /\ agrees v (Zpos m) x).
+Proof.
+  induction m as [m IH|m IH|]; intros v x; cbn [matchvals psize].
+  - (* xI *)
+    pose proof (psize_pos m) as Hps. rewrite pow2_succ by lia.
+    rewrite in_map_iff, agrees_step.
+    change (Z.div2 (Zpos m~1)) with (Zpos m). change (Z.odd (Zpos m~1)) with true.
+    split.
+    + intros (y & Hy & Hin). apply IH in Hin as [Hr Hag].
+      destruct (div2_odd_unique x y (Z.odd v) (eq_sym Hy)) as [Hd Ho].
+      rewrite Hd, Ho. split; [|split; [reflexivity|exact Hag]].
+      subst x. destruct (Z.odd v); cbn [Z.b2z]; lia.
+    + intros (Hr & Ho & Hag). specialize (Ho eq_refl).
+      exists (Z.div2 x). pose proof (Z.div2_odd x) as Hx. split.
+      * rewrite <- Ho. lia.
+      * apply IH. split; [|exact Hag]. destruct (Z.odd x); cbn [Z.b2z] in Hx; lia.
+  - (* xO *)
+    pose proof (psize_pos m) as Hps. rewrite pow2_succ by lia.
+    rewrite in_flat_map, agrees_step.
+    change (Z.div2 (Zpos m~0)) with (Zpos m). change (Z.odd (Zpos m~0)) with false.
+    split.
+    + intros (y & Hin & Hy). apply IH in Hin as [Hr Hag].
+      assert (Hx : exists c : bool, x = 2 * y + Z.b2z c).
+      { cbn [In] in Hy. destruct Hy as [Hy|[Hy|[]]]; [exists false|exists true]; cbn [Z.b2z]; lia. }
+      destruct Hx as [c Hx]. destruct (div2_odd_unique x y c Hx) as [Hd Ho].
+      rewrite Hd. split; [|split; [discriminate|exact Hag]].
+      subst x. destruct c; cbn [Z.b2z]; lia.
+    + intros (Hr & _ & Hag). exists (Z.div2 x). pose proof (Z.div2_odd x) as Hx. split.
+      * apply IH. split; [|exact Hag]. destruct (Z.odd x); cbn [Z.b2z] in Hx; lia.
+      * cbn [In]. destruct (Z.odd x); cbn [Z.b2z] in Hx; lia.
+  - (* xH *)
+    rewrite agrees_step. change (Z.div2 1) with 0. change (Z.odd 1) with true.
+    cbn [In]. change (2 ^ 1) with 2. pose proof (Z.div2_odd x) as Hx. split.
+    + intros [Hy|[]]. destruct (div2_odd_unique x 0 (Z.odd v)) as [Hd Ho]; [lia|].
+      split; [|split; [intros _; exact Ho|apply agrees_zero_mask]].
+      subst x. destruct (Z.odd v); cbn [Z.b2z]; lia.
+    + intros (Hr & Ho & _). specialize (Ho eq_refl). left. rewrite <- Ho.
+      destruct (Z.odd x); cbn [Z.b2z] in *; lia.
+Qed.
+
+Lemma ascending_map_affine c l : ascending l = true -> ascending (map (fun y => 2 * y + c) l) = true.
+Proof.
+  induction l as [|a t IH]; intros H; [reflexivity|].
+  cbn [ascending map] in *. apply andb_true_iff in H as [H1 H2]. rewrite (IH H2), andb_true_r.
+  destruct t as [|y t']; [reflexivity|]. cbn [map]. lia.
+Qed.
+
+Lemma ascending_flat_pair l :
+  ascending l = true -> ascending (flat_map (fun y => [2 * y; 2 * y + 1]) l) = true.
+Proof.
+  induction l as [|a t IH]; intros H; [reflexivity|].
+  cbn [ascending] in H. apply andb_true_iff in H as [H1 H2]. specialize (IH H2).
+  cbn [flat_map app]. cbn [ascending]. cbn [ascending] in IH. rewrite IH, andb_true_r.
+  destruct t as [|y t']; cbn [flat_map app]; lia.
+Qed.
+
+Lemma matchvals_ascending m : forall v, ascending (matchvals m v) = true.
+Proof.
+  induction m as [m IH|m IH|]; intros v; cbn [matchvals].
+  - apply ascending_map_affine, IH.
+  - apply ascending_flat_pair, IH.
+  - reflexivity.
+Qed.
+
+(* ---- W4: merge_runs -------------------------------------------------------------------------- *)
+Lemma wf_range_pair lo hi : wf_range (lo, hi) = (lo <=? hi).
+Proof. reflexivity. Qed.
+
+Lemma merge_runs_wf vs : forallb wf_range (merge_runs vs) = true.
+Proof.
+  induction vs as [|x t IH]; [reflexivity|]. cbn [merge_runs].
+  destruct (merge_runs t) as [|[lo hi] r] eqn:E.
+  - cbn [forallb]. unfold wf_range. cbn [fst snd]. lia.
+  - cbn [forallb] in IH. apply andb_true_iff in IH as [H1 H2]. unfold wf_range in H1. cbn [fst snd] in H1.
+    destruct (x + 1 =? lo) eqn:Ex; cbn [forallb]; rewrite H2, ?wf_range_pair; lia.
+Qed.
+
+(* W4: merging consecutive values into ranges *)
+Lemma merge_runs_contains vs x : contains (merge_runs vs) x = existsb (Z.eqb x) vs.
+Proof.
+  induction vs as [|a t IH]; [reflexivity|]. cbn [merge_runs existsb].
+  pose proof (merge_runs_wf t) as Hwf. rewrite <- IH.
+  destruct (merge_runs t) as [|[lo hi] r] eqn:E.
+  - cbn [contains existsb]. unfold in_range. cbn [fst snd]. lia.
+  - cbn [forallb] in Hwf. apply andb_true_iff in Hwf as [H1 _]. unfold wf_range in H1. cbn [fst snd] in H1.
+    destruct (a + 1 =? lo) eqn:Ex; rewrite !contains_cons; unfold in_range; cbn [fst snd];
+      destruct (contains r x); lia.
+Qed.
+
+Lemma merge_runs_head a t : exists hi r, merge_runs (a :: t) = (a, hi) :: r.
+Proof.
+  cbn [merge_runs]. destruct (merge_runs t) as [|[lo hi] r]; [eauto|].
+  destruct (a + 1 =? lo); eauto.
+Qed.
+
+Lemma merge_runs_gapped vs : ascending vs = true -> sorted_gapped (merge_runs vs) = true.
+Proof.
+  induction vs as [|a t IH]; intros H; [reflexivity|].
+  cbn [ascending] in H. apply andb_true_iff in H as [H1 H2]. specialize (IH H2).
+  destruct t as [|y t'].
+  - cbn. unfold wf_range. cbn [fst snd]. lia.
+  - destruct (merge_runs_head y t') as (hi & r & E).
+    change (merge_runs (a :: y :: t')) with
+      (match merge_runs (y :: t') with
+       | (lo, hi) :: r => if a + 1 =? lo then (a, hi) :: r else (a, a) :: (lo, hi) :: r
+       | [] => [(a, a)]
+       end).
+    rewrite E in *. cbn [sorted_gapped] in IH. cbn [fst snd] in IH.
+    apply andb_true_iff in IH as [IH12 IH3]. apply andb_true_iff in IH12 as [IH1 IH2].
+    rewrite wf_range_pair in IH1.
+    destruct (a + 1 =? y) eqn:Ex.
+    + cbn [sorted_gapped]. cbn [fst snd]. rewrite IH2, IH3, wf_range_pair. lia.
+    + cbn [sorted_gapped]. cbn [fst snd]. rewrite IH2, IH3, !wf_range_pair. lia.
+Qed.
+
+Lemma sorted_gapped_wf l : sorted_gapped l = true -> forallb wf_range l = true.
+Proof.
+  induction l as [|a t IH]; intros H; [reflexivity|].
+  cbn [sorted_gapped] in H. apply andb_true_iff in H as [H12 H3]. apply andb_true_iff in H12 as [H1 _].
+  cbn [forallb]. rewrite H1, (IH H3). reflexivity.
+Qed.
+
+(* ---- W5: collapse ---------------------------------------------------------------------------- *)
+Lemma collapse_contains n : forall l x, sorted_fst l = true -> forallb wf_range l = true ->
+  contains (collapse n l) x = contains l x.
+Proof.
+  induction n as [|f IH]; intros l x Hs Hw; [reflexivity|].
+  destruct l as [|a [|b t]]; try reflexivity.
+  cbn [collapse].
+  cbn [sorted_fst] in Hs. apply andb_true_iff in Hs as [Hab Hs].
+  cbn [forallb] in Hw. apply andb_true_iff in Hw as [Hwa Hw]. apply andb_true_iff in Hw as [Hwb Hwt].
+  unfold wf_range in Hwa, Hwb.
+  destruct (fst b <=? snd a + 1) eqn:E.
+  - rewrite IH.
+    + rewrite !contains_cons. unfold in_range. cbn [fst snd]. destruct (contains t x); lia.
+    + cbn [sorted_fst] in *. apply andb_true_iff in Hs as [Hbt Hs]. rewrite Hs, andb_true_r.
+      destruct t as [|c t']; [reflexivity|]. cbn [fst]. lia.
+    + cbn [forallb]. rewrite Hwt, andb_true_r. unfold wf_range. cbn [fst snd]. lia.
+  - rewrite (contains_cons a (collapse f (b :: t))), IH.
+    + rewrite <- contains_cons. reflexivity.
+    + exact Hs.
+    + cbn [forallb]. rewrite Hwt, andb_true_r. unfold wf_range. exact Hwb.
+Qed.
+
+Lemma collapse_head n : forall a t, exists a' r, collapse n (a :: t) = a' :: r /\ fst a' = fst a.
+Proof.
+  induction n as [|f IH]; intros a t; [cbn; eauto|].
+  destruct t as [|b t]; [cbn; eauto|]. cbn [collapse].
+  destruct (fst b <=? snd a + 1); [|eauto].
+  destruct (IH (fst a, Z.max (snd a) (snd b)) t) as (a' & r & E & Hf). eauto.
+Qed.
+
+Lemma collapse_gapped n : forall l, (length l <= n)%nat -> sorted_fst l = true -> forallb wf_range l = true ->
+  sorted_gapped (collapse n l) = true.
+Proof.
+  induction n as [|f IH]; intros l Hn Hs Hw.
+  - destruct l; [reflexivity|cbn [length] in Hn; lia].
+  - destruct l as [|a [|b t]]; [reflexivity| |].
+    + cbn [collapse sorted_gapped]. cbn [forallb] in Hw. rewrite andb_true_r in Hw. rewrite Hw. reflexivity.
+    + cbn [collapse]. cbn [length] in Hn.
+      cbn [sorted_fst] in Hs. apply andb_true_iff in Hs as [Hab Hs].
+      cbn [forallb] in Hw. apply andb_true_iff in Hw as [Hwa Hw]. apply andb_true_iff in Hw as [Hwb Hwt].
+      destruct (fst b <=? snd a + 1) eqn:E.
+      * apply IH.
+        -- cbn [length]. lia.
+        -- cbn [sorted_fst] in *. apply andb_true_iff in Hs as [Hbt Hs]. rewrite Hs, andb_true_r.
+           destruct t as [|c t']; [reflexivity|]. cbn [fst]. lia.
+        -- cbn [forallb]. rewrite Hwt, andb_true_r. unfold wf_range in *. cbn [fst snd]. lia.
+      * assert (Hg : sorted_gapped (collapse f (b :: t)) = true).
+        { apply IH; [cbn [length]; lia|exact Hs|]. cbn [forallb]. rewrite Hwb, Hwt. reflexivity. }
+        destruct (collapse_head f b t) as (a' & r & Ec & Hf). rewrite Ec in *.
+        cbn [sorted_gapped] in *. rewrite Hwa, Hg. lia.
+Qed.
+
+(* ---- W6: wild_ranges ------------------------------------------------------------------------- *)
+Definition spec_matches (s : Z * Z) (x : Z) : Prop :=
+  match snd s with
+  | Zpos m => 0 <= x < 2 ^ psize m /\ agrees (fst s) (snd s) x
+  | _ => x = 0
+  end.
+
+Lemma valmask2binlist_wf value mask : forallb wf_range (valmask2binlist value mask) = true.
+Proof. unfold valmask2binlist. destruct mask; try reflexivity. apply merge_runs_wf. Qed.
+
+Lemma existsb_eqb_In x l : existsb (Z.eqb x) l = true <-> In x l.
+Proof.
+  rewrite existsb_exists. split.
+  - intros (y & Hin & He). apply Z.eqb_eq in He. subst. exact Hin.
+  - intros Hin. exists x. split; [exact Hin|apply Z.eqb_refl].
+Qed.
+
+Lemma valmask2binlist_spec s x :
+  contains (valmask2binlist (fst s) (snd s)) x = true <-> spec_matches s x.
+Proof.
+  unfold valmask2binlist, spec_matches. destruct (snd s) as [|m|m] eqn:Em.
+  - cbn [contains existsb]. unfold in_range. cbn [fst snd]. lia.
+  - rewrite merge_runs_contains, existsb_eqb_In. apply matchvals_spec.
+  - cbn [contains existsb]. unfold in_range. cbn [fst snd]. lia.
+Qed.
+
+Lemma contains_flat_map {A} (f : A -> rlist) l x :
+  contains (flat_map f l) x = existsb (fun s => contains (f s) x) l.
+Proof.
+  induction l as [|a t IH]; [reflexivity|]. cbn [flat_map existsb]. rewrite contains_app, IH. reflexivity.
+Qed.
+
+Lemma forallb_flat_map {A B} (p : B -> bool) (f : A -> list B) l :
+  (forall a, forallb p (f a) = true) -> forallb p (flat_map f l) = true.
+Proof.
+  intros H. induction l as [|a t IH]; [reflexivity|]. cbn [flat_map]. rewrite forallb_app, H, IH. reflexivity.
+Qed.
+
+Lemma wild_list_wf specs :
+  forallb wf_range (sort (flat_map (fun s => valmask2binlist (fst s) (snd s)) specs)) = true.
+Proof.
+  rewrite forallb_sort. apply forallb_flat_map. intros s. apply valmask2binlist_wf.
+Qed.
+
+(* W6: the ranges behind a wildcard bin array hold exactly the values that match one of the
+   (value, mask) specs within the width of that spec's mask, and they are ascending maximal runs *)
+Lemma wild_ranges_spec specs x :
+  contains (wild_ranges specs) x = true <-> exists s, In s specs /\ spec_matches s x.
+Proof.
+  unfold wild_ranges. cbv zeta.
+  rewrite collapse_contains by (apply sorted_fst_sort || apply wild_list_wf).
+  rewrite contains_sort, contains_flat_map, existsb_exists.
+  split; intros (s & Hin & Hs); exists s; (split; [exact Hin|]); apply valmask2binlist_spec; exact Hs.
+Qed.
+
+Lemma wild_ranges_gapped specs : sorted_gapped (wild_ranges specs) = true.
+Proof.
+  unfold wild_ranges. cbv zeta. apply collapse_gapped.
+  - apply Nat.le_refl.
+  - apply sorted_fst_sort.
+  - apply wild_list_wf.
+Qed.
+
+(* ---- the bins of a wildcard bin array ---------------------------------------------------------- *)
+Lemma wild_array_bins_per_value specs :
+  exists bins, wild_array_bins specs None = Some bins /\
+    (forall k, 0 <= k -> nth_val (concat bins) k = nth_val (wild_ranges specs) k) /\
+    Forall (fun c => c = 1) (map count bins).
+Proof.
+  unfold wild_array_bins. eexists. split; [reflexivity|].
+  apply per_value_spec, sorted_gapped_wf, wild_ranges_gapped.
+Qed.
+
+Lemma wild_array_bins_count specs n :
+  1 <= n -> n < count (wild_ranges specs) ->
+  exists bins, wild_array_bins specs (Some n) = Some bins /\
+    (forall k, 0 <= k -> nth_val (concat bins) k = nth_val (wild_ranges specs) k) /\
+    map count bins = repeat (count (wild_ranges specs) / n) (Z.to_nat (n - 1)) ++
+                     [count (wild_ranges specs) - (n - 1) * (count (wild_ranges specs) / n)] /\
+    forallb (forallb wf_range) bins = true.
+Proof.
+  intros H1 H2. unfold wild_array_bins.
+  apply mk_collection_partition_lemma; [apply sorted_gapped_wf, wild_ranges_gapped|assumption|assumption].
+Qed.
